@@ -63,6 +63,9 @@ package nsqd
 //@   ensures[bad-magic-answered] mIOLoops == old(mIOLoops) && rfErr == nil ==> wN > old(wN) || wErrs > old(wErrs)
 //@   ensures[bad-magic-error-frame] mIOLoops == old(mIOLoops) && rfErr == nil && wErrs == old(wErrs) ==> wN == old(wN) + 22 && sbe32(wOut, old(wN)) == 18 && sbe32(wOut, old(wN) + 4) == frameTypeError
 //@   ensures[magic-is-four-bytes] mIOLoops == old(mIOLoops) ==> rfLen == 4 && (rfErr == nil ==> rPos == old(rPos) + 4)
+//   (round 5) exactly the magic "  V2" is served - final(protocolMagic) = the string made of the four bytes read
+//@   ensures[only-the-v2-magic-is-served] mIOLoops == old(mIOLoops) + 1 ==> final(protocolMagic) == "  V2"
+//@   ensures[the-v2-magic-is-served-or-the-read-failed] mIOLoops == old(mIOLoops) && rfErr == nil ==> final(protocolMagic) != "  V2"
 //@   ensures[served-by-v2-on-this-conn] mIOLoops == old(mIOLoops) + 1 ==> dyntype(mLoopProt) == typetag("*protocolV2") && unbox(mLoopProt, "*protocolV2").nsqd == old(p.nsqd) &&
 //@        dyntype(mLoopClient) == typetag("*clientV2") && unbox(mLoopClient, "*clientV2").Conn == conn
 //@   ensures[registered-once-in-this-table] mIOLoops == old(mIOLoops) + 1 ==> r4EConnStores == old(r4EConnStores) + 1 && r4EConnStoreMap == &p.conns && r4EConnStoreKey == remoteOf(conn) && r4EConnStoreVal == mLoopClient
